@@ -782,6 +782,20 @@ def run_C14(ctx):
         if last is not None:
             items += ["P %d %d" % last, "F 1", "wi", "V 4000000000 1", "F 1", "wi", "G"]
         cases.append("TRACE %s | %s" % (cfg, " ; ".join(items)))
+    # a purge (and later writes) NOT flushed before the drop: what was acknowledged earlier must
+    # still be there after the reopen (the unflushed purge record may be lost, the files of the
+    # entries it would have released may not)
+    for j in range(ctx.scale(8, 60)):
+        R = rnd.choice([3, 4, 5])
+        cfg = "100000 1073741824 %d 1073741824 1 64" % R
+        n1 = rnd.randint(2, 3) * (R - 1)
+        items = ["A 1 %d x%02x" % (i, i) for i in range(n1)] + ["F 1", "wi", "R 0 100000"]
+        items += ["P 1 %d" % rnd.randint(R - 2, n1 - 1)]
+        if rnd.random() < 0.5:
+            items += ["V 2 1"]
+        items += [rnd.choice(["drop", "dropheld", "panicheld"]), "release", "open " + cfg, "G", "R 0 100000", "A 1 %d x70" % n1, "F 1", "wi", "G"]
+        cases.append("TRACE %s | %s" % (cfg, " ; ".join(items)))
+        ctx.count("unflushed_purge_then_drop")
     # the request channel full at the time of the drop: nothing that was accepted may be lost
     for j in range(ctx.scale(1, 3)):
         recs = rnd.choice([200, 400])
@@ -804,6 +818,21 @@ def run_C14(ctx):
             late = [e for e in ev[d:upto] if e.startswith("w ")]
             if late:
                 why = "drop returned while the worker still had work; it acted afterwards: " + late[0]
+        # an unflushed purge before the drop: after the reopen the acknowledged entries are all
+        # there, or exactly those above the purge point if the purge record made it to disk
+        reads = [(i, e) for i, e in enumerate(ev) if e.startswith("c ret read ")]
+        pcall = [i for i, e in enumerate(ev) if e.startswith("c call P ")]
+        drops = [i for i, e in enumerate(ev) if e == "c drop"]
+        if pcall and drops and reads and pcall[-1] < drops[0] and not any(e.startswith("c call F") for e in ev[pcall[-1]:drops[0]]):
+            before = [r for i, r in reads if i < pcall[-1]]
+            after = [r for i, r in reads if i > drops[0]]
+            if before and after:
+                up = int(ev[pcall[-1]].split()[4])
+                items_b = before[-1].split()[3:]
+                items_a = after[0].split()[3:]
+                kept = [x for x in items_b if int(x.split(":")[2]) > up]
+                if items_a != items_b and items_a != kept:
+                    why = why or "entries acknowledged before an unflushed purge are gone after drop and reopen: before `%s` after `%s`" % (" ".join(items_b)[:300], " ".join(items_a)[:300])
         opened = [i for i, e in enumerate(ev) if e == "c opened"]
         if len(opened) >= 2:
             tail = ev[opened[1]:]
